@@ -386,6 +386,7 @@ from_neighbor:
     if (false) { // NOLINT(*-simplify-boolean-expr)
 retry_after_fb:
         // check index rewinding in this border is sufficient
+        if (perm.get_cnk() == 0) { YAKUSHIMA_VERIF_HOOK(YAKUSHIMA_VERIF_RETRY, nullptr); }
         if (perm.get_cnk() == 0) { goto retry_from_root; } // NOLINT
         if (!right_to_left) {
             // check min keyslice
@@ -406,6 +407,7 @@ retry_after_fb:
         }
         // optimistic-check for kt
         status check_status = iscan_check_retry(bn, v_at_fb, perm);
+        if (check_status != status::OK) { YAKUSHIMA_VERIF_HOOK(YAKUSHIMA_VERIF_RETRY, nullptr); }
         if (check_status != status::OK) { goto retry_from_root; } // NOLINT
 
         st->bi.perm_rank = 0;
